@@ -143,6 +143,139 @@ def without_present_empty(net, tree):
 		(name, None if name in conditional and value in (b'', []) else without_present_empty(net, value)) for name, value in tree[2]])
 
 
+def alias_boundary_problem(net, name, value):
+	"""P for one value of an integer alias (`using X = (u)intN`), from the schema text alone: every integer of the declared width is admissible,
+	is written as exactly that many little-endian bytes, those bytes are accepted and decode to the value, and JSON shows the value."""
+	model = net.by_name[name]
+	width, signed = model.size, not model.linked_type.is_unsigned
+	prescribed = value.to_bytes(width, 'little', signed=signed)
+	cls = getattr(net.module, name)
+	built = limited(lambda: cls(value))
+	if built[0] != 'ok':
+		return f'the value {value:#x} of a {"" if signed else "u"}int{8 * width} alias is refused ({fmt(built, str)})'
+	encoded = limited(lambda: (bytes(built[1].serialize()), built[1].size))
+	if encoded[0] != 'ok' or encoded[1] != (prescribed, width):
+		return f'the value {value:#x} is encoded as {fmt(encoded, lambda pair: pair[0].hex() + " size " + str(pair[1]))}, the schema prescribes {prescribed.hex()}'
+	decoded = limited(lambda: cls.deserialize(prescribed))
+	if decoded[0] != 'ok':
+		return f'the bytes {prescribed.hex()} the schema declares for {value:#x} are not accepted ({fmt(decoded, str)})'
+	shown = limited(lambda: (decoded[1].value, decoded[1].size, int(decoded[1].to_json())))
+	if shown[0] != 'ok' or shown[1] != (value, width, value):
+		return f'the bytes {prescribed.hex()} decode to (value, size, json) = {fmt(shown, str)} instead of {value}, {width}, {value}'
+	return None
+
+
+def alias_boundaries(check, net, name, model):
+	"""Boundary corpus of every integer alias: both ends of the declared width and their neighbours, the middle, high-bit-only and
+	single-byte patterns (deterministic, whatever the random values of the run hold)."""
+	width = model.size
+	low, high = codec.int_bounds(width, model.linked_type.is_unsigned)
+	corpus = sorted({low, low + 1, 0, 1, 0x5A, high // 2, high // 2 + 1, 1 << (8 * width - 8), high - 0xFF, high - 1, high})
+	for value in corpus:
+		if not low <= value <= high:
+			continue
+		check.case(f'{net.name}:alias-boundary', (name, value))
+		problem = alias_boundary_problem(net, name, value)
+		if problem:
+			check.fail(signature('alias-boundary', name, value), f'{net.name}.{name}: {problem}',
+				{'network': net.name, 'class': name, 'op': 'alias-boundary', 'input': value})
+
+
+ALIGNMENT_PATTERNS_QUICK = ['u', 'a', 'au', 'ua', 'uu']
+ALIGNMENT_PATTERNS_THOROUGH = ALIGNMENT_PATTERNS_QUICK + ['aa', 'uau', 'uua', 'aau', 'uuu']
+
+
+def aligned_arrays(model):
+	return [field for field in codec.settable_fields(model)
+		if codec.is_array(field) and not codec.is_byte_array(field) and field.field_type.alignment and isinstance(field.field_type.element_type, str)]
+
+
+def aligned_array_values(generator, model, patterns=None):
+	"""For every array member with declared element alignment: values whose elements have sizes that are (a) / are not (u) multiples of the
+	alignment in every short arrangement - in particular an unaligned LAST element, where `pad_last` / `not pad_last` decides what follows."""
+	for field in aligned_arrays(model):
+		if field.is_conditional or field.field_type.sort_key:
+			continue
+		base = None
+		for pattern in patterns or ALIGNMENT_PATTERNS_QUICK:
+			elements = [generator.element_of_residue(field.field_type.element_type, field.field_type.alignment, letter == 'a') for letter in pattern]
+			if any(element is None for element in elements):
+				continue
+			if base is None:
+				generator.extreme = 'min'
+				base = generator.struct(model, 0)
+				generator.extreme = None
+			yield ('S', base[1], [(name, elements if name == field.name else value) for name, value in base[2]])
+
+
+def aligned_array_problem(net, name, tree):
+	"""P for a value with aligned arrays, from the schema's alignment attributes and the element encodings alone: the encoding is that of the
+	same value with the arrays empty plus, per array, the element encodings each followed by zero bytes up to the alignment (the last one
+	only when the schema says pad_last), and these bytes are ACCEPTED: they decode to the value."""
+	model = net.by_name[name]
+	members = dict(tree[2])
+	encoded = limited(lambda: bytes(codec.to_object(net, name, tree).serialize()))
+	if encoded[0] != 'ok':
+		return f'a value the schema admits does not encode ({fmt(encoded, str)})', None
+	data = encoded[1]
+	aligned_names = {field.name for field in aligned_arrays(model)}
+	emptied = ('S', tree[1], [(member, [] if member in aligned_names and value else value) for member, value in tree[2]])
+	without = limited(lambda: bytes(codec.to_object(net, name, emptied).serialize()))
+	grown = 0
+	for field in aligned_arrays(model):
+		elements = members.get(field.name) or []
+		if not elements:
+			continue
+		alignment = field.field_type.alignment
+		prescribed = b''
+		for position, element in enumerate(elements):
+			block = limited(lambda e=element, f=field: bytes(codec.to_object(net, f.field_type.element_type, e).serialize()))
+			if block[0] != 'ok':
+				return f'an element of {field.name} does not encode on its own ({fmt(block, str)})', data
+			block = block[1]
+			prescribed += block
+			if field.field_type.is_last_element_padded or position != len(elements) - 1:
+				prescribed += bytes(-len(block) % alignment)
+		grown += len(prescribed)
+		if data.find(prescribed) < 0:
+			sizes = [codec.encoded_length(net, field.field_type.element_type, element) for element in elements]
+			return f'the encoding does not hold the elements of {field.name} (sizes {sizes}) laid out with alignment {alignment}, ' \
+				f'{"pad_last" if field.field_type.is_last_element_padded else "not pad_last"}', data
+	if without[0] == 'ok' and len(data) != len(without[1]) + grown:
+		return f'the encoding is {len(data)} bytes long, the schema prescribes {len(without[1])} + {grown} (members + aligned elements)', data
+	des_text, decoded = impl_des(net, name, data)
+	if decoded is None:
+		sizes = {f.name: [codec.encoded_length(net, f.field_type.element_type, e) for e in members.get(f.name) or []] for f in aligned_arrays(model)}
+		return f'the schema-conformant encoding of a value with element sizes {sizes} is not accepted ({des_text[:80]})', data
+	if decoded[1] != tree:
+		return 'the schema-conformant encoding decodes to a different value', data
+	return None, data
+
+
+def aligned_array_case(check, net, name, tree, exprs, expected, meta):
+	check.case(f'{net.name}:aligned-array', (name, codec.render(tree)))
+	problem, data = aligned_array_problem(net, name, tree)
+	if problem:
+		check.fail(signature('aligned-array-layout', name, codec.render(tree)), f'{net.name}.{name}: {problem}',
+			{'network': net.name, 'class': name, 'op': 'aligned-array', 'input': codec.tree_to_json(tree), 'shown': codec.render(tree)[:600],
+				'bytes': data.hex() if data is not None else None})
+	# ... and the same inputs through the schema interpreter
+	try:
+		ser = impl_ser(codec.to_object(net, name, tree))
+	except codec.Inadmissible:
+		return
+	exprs.append(f'case_ser {net.coq_schema} "{name}" {codec.coq_value(tree)}')
+	expected.append(ser)
+	meta.append(('ser', name, codec.render(tree), codec.tree_to_json(tree)))
+	check.case(f'{net.name}:bytes', (name, codec.render(tree)))
+	if data is not None:
+		des_text, _ = impl_des(net, name, data)
+		exprs.append(f'case_des {net.coq_schema} "{name}" {blit(data)}')
+		expected.append(des_text)
+		meta.append(('des', name, data.hex(), data.hex()))
+		check.case(f'{net.name}:decode', (name, data.hex()))
+
+
 def run_network(check, net, per_class):
 	rng = check.rng
 	generator = codec.Generator(net, rng, long_arrays=(check.tier == 'thorough'))
@@ -166,14 +299,31 @@ def run_network(check, net, per_class):
 			continue
 		model = net.by_name[name]
 		is_abstract = codec.kind(model) == 'Struct' and model.is_abstract
-		for index in range(per_class + 3):
-			# the first values of every class: all variable-length members empty (twice: both arms of the alternating conditionals), then longest
-			generator.extreme = {0: 'min', 1: 'min', 2: 'max'}.get(index)
+		if codec.kind(model) == 'Alias' and codec.kind(model.linked_type) == 'FixedSizeInteger':
+			alias_boundaries(check, net, name, model)
+		patterns = ALIGNMENT_PATTERNS_THOROUGH if check.tier == 'thorough' else ALIGNMENT_PATTERNS_QUICK
+		family = list(aligned_array_values(generator, model, patterns)) if codec.kind(model) == 'Struct' and not is_abstract else []
+		for tree in family:
+			aligned_array_case(check, net, name, tree, exprs, expected, meta)
+		# the first values of every class: all variable-length members empty (twice: both arms of the alternating conditionals), then longest,
+		# then (classes with integer members) every integer member at exactly the largest value of its width (thorough: and at the smallest)
+		modes = [('min', None), ('min', None), ('max', None)]
+		if codec.kind(model) == 'Struct' or (codec.kind(model) == 'Alias' and codec.kind(model.linked_type) == 'FixedSizeInteger'):
+			modes += [(None, 'max')] + ([(None, 'min'), ('max', 'max')] if check.tier == 'thorough' else [])
+		modes += [(None, None)] * per_class
+		for index, (extreme, ints) in enumerate(modes):
+			generator.extreme, generator.ints = extreme, ints
 			tree = generator.struct(model, 0) if is_abstract else generator.named(name)
-			generator.extreme = None
+			generator.extreme, generator.ints = None, None
 			try:
 				obj = codec.to_object(net, name, tree)
-			except codec.Inadmissible:
+			except codec.Inadmissible as ex:
+				# the generator only produces values the schema admits (integers within their width, declared enum members, flag subsets)
+				check.case(f'{net.name}:refused-at-construction', (name, codec.render(tree)))
+				check.fail(signature('admissible-value-refused', name, codec.render(tree)),
+					f'{net.name}.{name}: a value the schema admits is refused when the object is built ({str(ex)[:120]}): the codec cannot produce '
+					'the bytes the schema declares for it',
+					{'network': net.name, 'class': name, 'op': 'construct', 'input': codec.tree_to_json(tree), 'shown': codec.render(tree)[:600]})
 				continue
 			# bytes
 			ser = impl_ser(obj)
@@ -248,7 +398,10 @@ def run(check, unrecognised):
 		'translator harness/gens/c01.py (ArrayOps, SchemaSc/SchemaNc: the schema terms are printed from the objects /repo\'s own parser produces; '
 		'the independence of the schema READING from that parser is the subject of C04, whose Coq parser is compared with it on all shipped files)',
 		'harness/codec.py; canonicalisation of enum.__str__ (member names -> numeric value) in harness/checks/c02.py']
-	check.extra['rule'] = 'every class of sc and nc x schema-directed values -> serialize bytes, size, deserialize tree, to_json(), str(); ' \
+	check.extra['rule'] = 'every class of sc and nc x schema-directed values (incl. one with every integer member at the maximum of its width) ' \
+		'-> serialize bytes, size, deserialize tree, to_json(), str(); every integer alias x boundary corpus of its width -> little-endian bytes, ' \
+		'decode, JSON (oracle from the schema alone); every aligned array x arrangements of elements with sizes on / off the alignment (unaligned ' \
+		'last element included) -> prescribed padding and decode of the own encoding; ' \
 		'distinct = distinct (class, value); all non-trivial'
 	if unrecognised.get('ArrayOps'):
 		check.notes.append(f'anchors not recognised, pinned operators used: {unrecognised["ArrayOps"]}')
@@ -269,6 +422,22 @@ def replay(data):
 	what the schema interpreter prescribed when the replay was written (recorded in the file)."""
 	record = data['replay']
 	print('replay data:', {k: str(v)[:400] for k, v in record.items()})
+	if record.get('op') in ('construct', 'alias-boundary', 'aligned-array'):
+		# oracles that need nothing but the schema: re-evaluated on the implementation of the current tree
+		codec.setup_paths()
+		net = codec.load_net(record['network'])
+		if record['op'] == 'alias-boundary':
+			problem = alias_boundary_problem(net, record['class'], record['input'])
+		elif record['op'] == 'aligned-array':
+			problem = aligned_array_problem(net, record['class'], codec.tree_from_json(record['input']))[0]
+		else:
+			try:
+				codec.to_object(net, record['class'], codec.tree_from_json(record['input']))
+				problem = None
+			except codec.Inadmissible as ex:
+				problem = f'a value the schema admits is refused when the object is built ({str(ex)[:160]})'
+		print('property:', f'VIOLATED ({record["network"]}.{record["class"]}: {problem})' if problem else 'holds')
+		return 1 if problem else 0
 	if 'op' not in record or 'schema_prescribes' not in record:
 		return 1
 	codec.setup_paths()
